@@ -99,12 +99,19 @@ fn plain_ctx(rng: &mut Rng) -> RecCtx {
     c
 }
 
-const MALFORMED: [&str; 49] = [
+/// Malformed pieces that can stand inside a parenthesised group argument and are complete in themselves (an
+/// unterminated formatter such as `{m` or `{m:x` swallows the group's closing parenthesis: then the group itself
+/// is the malformed item and only what precedes the *group* has to render).
+const GROUP_TAILS: [&str; 6] = ["}", "{foo}", "{X}", "{d(%Q)}", "{l(a)}", "{Thread}"];
+
+const MALFORMED: [&str; 54] = [
     "{", "{m", "{m:", "{m:5", "{m:>", "{d(%Y", "{h(", "{(", "{h(a{m)", "{d(%Y)(utc", "}", "(", ")", "a)b", "\\", "\\x", "\\9",
     "{x}", "{foo}", "{Thread}", "{é}", "{mm}", "{m(a)}", "{l(a)}", "{n()}", "{t(a)(b)}", "{P(x)}", "{h}", "{h(a)(b)}", "{D}",
     "{R(a)(b)}", "{()()}", "{}", "{:5}", "{d(a)(utc)(c)}", "{X}", "{X(a)(b)(c)}", "{d(%Y)(UTC)}", "{d(%Y)(est)}", "{d(%Y)()}",
     "{d(%Y)({m})}", "{d(%Q)}", "{d(%Y-%m-%d %!)}", "{d(%-)}", "{m:99999999999999999999999}", "{m:.18446744073709551616}",
     "{m:>18446744073709551616.18446744073709551617}", "{m:x}", "{m 5}",
+    // syntax errors and formatters inside an MDC argument
+    "{X(user}id)}", "{X(missing)(n/a {l})}", "{X(a{m}b)}", "{X(k)(d}e)}", "{X({)}",
 ];
 
 pub fn run(rep: &mut Report) {
@@ -275,6 +282,32 @@ pub fn run(rep: &mut Report) {
         }
         if idx == 7 {
             rep.sample(json!({"pattern": pattern, "family": "well-formed prefix + malformed tail", "expected_prefix": expected}));
+        }
+    });
+
+    // (c2) the same inside a group: what precedes the error inside the group still renders
+    let n = if thorough { 60_000 } else { 6_000 };
+    run_cases(rep, "tail-in-group", n, |rep, rng, idx| {
+        let o = GenOpts { max_depth: 1, allow_default_date: false, allow_profile_groups: false, spec_prob: (0, 1), mdc_keys: vec![] };
+        let mut hole = 0;
+        let mut nodes = gen_nodes(rng, &o, 0, &mut hole, false);
+        nodes.retain(|n| matches!(n, Node::Text(_) | Node::Fmt(Kind::Level | Kind::Target | Kind::Message | Kind::Newline, None)));
+        nodes.push(Node::Text("|".into()));
+        let v = print(&nodes, rng, true);
+        let m = GROUP_TAILS[(idx as usize) % GROUP_TAILS.len()];
+        let pattern = format!("<{{({}{} rest)}}>", v, m);
+        let ctx = plain_ctx(rng);
+        let now = Utc::now();
+        let expected: String = format!("<{}", text_of(&render(&nodes, &ctx, &now.with_timezone(&Local), &now)));
+        rep.case(&pattern, true);
+        rep.count("malformed_tail_in_group_cases", 1);
+        if let Some(Outcome::Ok { text, encode_err, .. }) = exercise(rep, &pattern, &ctx, "tail-in-group") {
+            let got = String::from_utf8_lossy(&text).into_owned();
+            if !got.starts_with(&expected) {
+                rep.violation(&format!("C11:prefix-before-error-not-rendered:inside-a-group:{}", m), json!({"pattern": pattern, "expected_prefix": expected, "got": got}));
+            } else if encode_err.is_none() && !got.contains("{ERROR: ") {
+                rep.violation("C11:error-not-surfaced:inside-a-group", json!({"pattern": pattern, "got": got}));
+            }
         }
     });
 
